@@ -5,6 +5,8 @@ import PyIkev2.Props.C14
 #print axioms PyIkev2.Props.C14.c14_record_roundtrip
 #print axioms PyIkev2.Props.C14.c14_port_network_order
 #print axioms PyIkev2.Props.C14.c14_constants_from_source
+#print axioms PyIkev2.Props.C14.c14_attributes_aligned_from_source
+#print axioms PyIkev2.Props.C14.c14_attribute_step
 #print axioms PyIkev2.Props.C14.c14_flows_from_source
 #print axioms PyIkev2.Props.C14.c14_struct_decodes
 #print axioms PyIkev2.Props.C14.c14_reply_error
